@@ -321,7 +321,7 @@ def sig(b):
 class C16(PropBase):
     pid = "C16"
     coq_dirs = ["Base", "C08", "C09", "C10", "C11", "C16"]
-    translators = ["c16_fsops.py", "symfile_loop.py", "c10_stream.py"]
+    translators = ["c16_fsops.py", "c16_locate.py", "symfile_loop.py", "c10_stream.py"]
     bins = ["c16"]
     impl_timeout = 600
     rule = ("each case: fresh cache/ tmp/ local dirs, a scripted loopback HTTP/1.1 server per URL (status 200/403/404/500/503; "
@@ -356,7 +356,7 @@ class C16(PropBase):
         "what the loop hands out; the body is a script of response.chunk() results (any sizes, empty chunks, failure anywhere). circular::Buffer is "
         "modelled by its indices (FIFO contract, C09); which bytes a callback slice holds is the prefix of the body of that length",
         "the streaming fetch is compared with C16/Model.v (and so with the real code) on every case whose last server is the only one that sends a body: "
-        "with C09's recogniser for bodies with lines < 6000 bytes, with the line recogniser of C16/Driver.v for the generated bodies with longer lines",
+        "with C09's recogniser for bodies with lines < 4100 bytes, with the line recogniser of C16/Driver.v for the generated bodies with longer lines",
         "ownership: C16/Raii.v interprets the step list of fetch_symbol_file (translated by c16_fsops.py) with a frame of owned locals and ONE drop site "
         "(frame left by return / `?` / future dropped at an await; a dropped NamedTempFile removes its file; commit_cache_file takes it by value); "
         "C16/Model.v is proved equal to that interpreter on the translated list. Trusted: that rustc runs drops where the language says, tempfile's Drop "
@@ -394,6 +394,8 @@ class C16(PropBase):
                 "whole body + [newline] + note, or unchanged, or an older entry removed and persist failed; every error leaves the cache untouched; tmp as before in all cases), "
                 "c16_stream_verdict_chunk_independent (lines < 80 KiB: the verdict is the schedule-free one for every chunking), c16_stream_failed_body_leaves_nothing, "
                 "c16_stream_dropped_leaves_nothing_partial (drop after any number of loop iterations), c16_stream_lookup_entry_only_from_whole_body (every server list, every response), "
+                "c16_locate_is_source (Model.locate = the function assembled from the cascade pattern / server-loop arms / final value that translate/c16_locate.py extracts from locate_symbols), "
+                "c16_model_response_is_stream_fetch / c16_model_failed_response_is_stream_fetch (Model.run over a response in ANY chunks = the streaming download under EVERY body script: lines < 80 KiB, tee writes succeed), "
                 "c16_stream_note_is_reported_url (which URL -- requested or final after redirects -- is reported and which is written into the note is translated from http.rs; they are the same source, "
                 "so for every redirect target the entry's note is the URL the lookup reported), c16_stream_loop_is_source, c16_stream_download_then_cache_hit "
                 "(C09/C10 recogniser: streamed download under any chunking, then the whole-file parse of the entry: same table, URL of the note), c16_stale_flag_refuted "
@@ -696,7 +698,7 @@ class C16(PropBase):
         head4, rest4 = lines[:4], lines[4:]
         fill_opts = [0, 0, 2900, 5100, 6000, 9000]
         lens = [5200, 7000, 9000, 10239, 10240, 10241, 12000, 20000, 30000, 40000]
-        reps = 1 if not thorough else 4
+        reps = 1 if not thorough else 2
         tagc = 0
         for ln in lens:
             for kind in ("PUBLIC", "FUNC", "FILE", "INFO"):
